@@ -45,11 +45,16 @@ func (v Variant) Runtime() string {
 }
 func (v Variant) Param() string {
 	p := "paths=source_relative,apiversion=" + v.API
+	// both spellings of "off": the option left out, and the option given as false
 	if v.PerMessage {
 		p += ",filepermessage=true"
+	} else if v.Unsafe {
+		p += ",filepermessage=false"
 	}
 	if v.Unsafe {
 		p += ",enableunsafedecode=true"
+	} else if v.PerMessage {
+		p += ",enableunsafedecode=false"
 	}
 	return p
 }
